@@ -236,6 +236,7 @@ B11 = {
  "C18-16": ("C18", "a topology event and its refresh, then a new session, a second refresh or a control reconnect", "host refresh runs in a goroutine of its own while the event loop keeps using hosts / listeners / currentHostIndex"),
 }
 B12 = {
+ "C03-12": ("C03", "override configured, a DSEv1 client, a non-SELECT EXECUTE at a listed consistency", "EXECUTE encode and encoded-length gate the result-metadata id on 'version >= v5' (DSEv1 = 0x41) while decode keeps the right test: two extra bytes in front of the consistency"),
  "C02-10": ("C02", "two backend connections each answered UNPREPARED for the same id, their write loops interleaved, different stream ids on the two connections", "raw frames get their stream id written in place - the cached PREPARE frame is shared by every connection that re-prepares the id: one connection's PREPARE goes out with the other's stream id"),
  "C04-13": ("C04", "a first attempt answered with an always-retried outcome (unavailable, bootstrapping, retriable read timeout), the second with a write timeout / overloaded / server error, >= 3 hosts", "retry decision kept as request state and never reset: the previous attempt's decision is applied again"),
  "C04-14": ("C04", "a BATCH with a prepared child whose id was never prepared through this proxy, an attempt that may have applied it", "batch path treats an id without metadata as idempotent while the EXECUTE path still refuses"),
